@@ -138,6 +138,7 @@ mod verif_nx_pipeline {
         let crlf = leak(config(false, 2, 2, true, 40, false));
         let wide_sp = leak(config(false, 3, 2, false, 100_000, false));
         let wide_tab = leak(config(true, 3, 2, false, 100_000, false));
+        let wide_sp2 = leak(config(false, 2, 2, false, 100_000, false));
         let mut n = 0u64;
         programs(&mut |p| {
             let (out, _) = fmt(lf, p, Vec::new());
@@ -153,6 +154,27 @@ mod verif_nx_pipeline {
                 let indent = line.len() - line.trim_start_matches(' ').len();
                 assert!(indent % 2 == 0 || line.trim_start().is_empty(), "OB pipeline/indent_unit: indentation is a whole number of indentation units\n input={:?} line={:?}", p, line);
                 assert!(!line.contains('\t'), "OB pipeline/no_tabs_without_use_tabs: no tab is emitted when use_tabs is off\n input={:?} line={:?}", p, line);
+            }
+            // C02: the output re-scans to the same tokens (kinds up to the layout-dependent comment sub-kind; text up to the documented normalisations)
+            {
+                let a = DelphiLexer {}.lex(p);
+                let b = DelphiLexer {}.lex(&out);
+                assert!(a.len() == b.len(), "OB pipeline/rescans_to_same_tokens: scanning the output yields the same number of tokens\n input={:?}\n output={:?}", p, out);
+                for (x, y) in a.iter().zip(b.iter()) {
+                    let same_kind = match (x.get_token_type(), y.get_token_type()) {
+                        (RawTokenType::Comment(_), RawTokenType::Comment(_)) => true,
+                        (k1, k2) => k1 == k2,
+                    };
+                    assert!(same_kind && nb(x.get_content()) == nb(y.get_content()), "OB pipeline/rescans_to_same_tokens: scanning the output yields the same token kinds and text\n input={:?}\n output={:?}\n token in={:?} out={:?}", p, out, x.get_content(), y.get_content());
+                }
+            }
+            // C11: the limit is a limit, not a style switch
+            {
+                let (w, _) = fmt(wide_sp2, p, Vec::new());
+                if w.split('\n').all(|l| l.len() <= 40) {
+                    assert!(w == out, "OB pipeline/limit_not_style: a result for a wider limit that already fits the narrower limit is also the result for the narrower limit\n input={:?}\n wide={:?}\n narrow={:?}", p, w, out);
+                }
+                assert!(w.split('\n').count() <= out.split('\n').count(), "OB pipeline/wider_never_more_lines: widening wrap_column never increases the number of lines\n input={:?}", p);
             }
             // C09
             let (out_crlf, _) = fmt(crlf, p, Vec::new());
